@@ -431,6 +431,28 @@ def sockRecvLoop : Nat → List (List UInt8) → List UInt8 × List (List UInt8)
 def sockRead (n : Nat) (ps : List (List UInt8)) : List UInt8 × List (List UInt8) :=
   if n = 0 then ([], ps) else sockRecvLoop n ps
 
+/-- the size `n` of the last chunk the loop received (0 when `recv` found the peer closed) -/
+def sockRecvLast : Nat → List (List UInt8) → Nat
+  | _, [] => 0
+  | size, p :: ps =>
+    if p.length = 0 then 0
+    else if size < p.length then size
+    else if size = p.length then p.length
+    else sockRecvLast (size - p.length) ps
+
+/-- the value `Socket_::read(void*, int)` returns: which variable the `return` after the loop names comes from G
+    (`sockReadRet`: the sum `s` of the chunks today) -/
+def sockReadResult (n : Nat) (ps : List (List UInt8)) : Nat :=
+  if n = 0 then 0 else
+  match sockReadRet with
+  | .total => (sockRecvLoop n ps).1.length
+  | .last => sockRecvLast n ps
+
+/-- `ByteArray Socket_::read(int n)`: `ByteArray a(n); n = read(&a[0], a.length()); return a.resize(max(0, n));` -/
+def sockReadBytes (n : Nat) (ps : List (List UInt8)) : List UInt8 × List (List UInt8) :=
+  let r := sockRead n ps
+  (r.1.take (sockReadResult n ps), r.2)
+
 def getGenericFrag (swap : Bool) (w : Nat) (ps : List (List UInt8)) : Nat × List (List UInt8) :=
   let r := sockRead w ps
   let x := if swap then swapBytes r.1 else r.1
@@ -459,7 +481,7 @@ def getArrayFrag (e : Endian) (t : Ty) (n : Nat) (ps : List (List UInt8)) : List
 def readOpFrag (e : Endian) (ps : List (List UInt8)) : ROp → Endian × List (List UInt8) × RVal
   | .setEndian e' => (e', ps, .none)
   | .scalar t => let r := getScalarFrag e t ps; (e, r.2, .val t r.1)
-  | .bytes n => let r := sockRead (rawReadCount .sock n) ps; (e, r.2, .bytes r.1)
+  | .bytes n => let r := sockReadBytes (rawReadCount .sock n) ps; (e, r.2, .bytes r.1)
   | .skip n => let r := sockRead (skipAdv .sock n) ps; (e, r.2, .none)
   | .array t n => let r := getArrayFrag e t n ps; (e, r.2, .vals t r.1)
 
